@@ -52,6 +52,13 @@ THEOREMS = [
     (M, "C03.properties_same_unescape_same_value", ".properties: val = documented unescape of raw_val (C02), so raw texts that unescape to one text are one value"),
     (M, "C03.duplicates_same_key_sequence", "reference with duplicated keys vs a localization with the identical key sequence: nothing missing/obsolete, "
         "changed + unchanged + keys = number of DISTINCT reference keys"),
+    # ---- round 5
+    (M, "C03.job_result_history_free", "one PROCESS (several comparers + the process-wide memo, which has no content): after ANY history of "
+        "compare/add/remove calls on files of any formats, a call decides the same about the merge file and is the SAME block of notifications "
+        "and stats pushes as before the history, so it adds the same to every counter of every locale (list and project observers); false if "
+        "count_words / val / equals / the diff consult a table filled by earlier calls"),
+    (M, "C03.job_counts_as_in_fresh_process", "in a process that started fresh, a call after any history adds to every counter exactly what the "
+        "same call reports as the first call of a fresh process (what the cross-format differential of the harness runs)"),
     (M, "C03.keyed_probe_spec", "KeyedTuple: `x in entities` holds exactly for entity keys and the tuple's own entity objects; entities[key] is the LAST "
         "entity with that key, an absent key raises TypeError"),
 ]
@@ -63,8 +70,10 @@ PARTIAL = [
     "and all eleven counters are compared); for dtd / ftl / android jobs the checker's messages are an input of the session model (placed and "
     "counted by the model, produced by the real checker) and, in the single-comparison stream c03.cmp, subtracted as before",
     "session theorems: what a job adds is stated over its own event block (existentially quantified history); that the block of a job does not "
-    "depend on the summaries accumulated before (only on the filters) is proved for the stats of comparisons (compare_job_adds_its_counts), not "
-    "stated as a separate determinism theorem for add/remove",
+    "depend on anything accumulated before (only on the filters) is job_result_history_free (round 5, all job shapes) — given that both calls "
+    "return (a details tree can make Tree.__getitem__ raise for one history and not for another: C10's domain)",
+    "process-wide state: the model's memo component is EMPTY because the code has none; Junk.junkid (a process-wide counter that only names "
+    "junk keys) is reset by the harness before every job and the text-level model starts every job at 0",
     "Fluent equals is an equivalence between entries of the same class only: across classes (a Term against a Message) it is not symmetric "
     "(kernel-checked witness in Props/C03.lean); the comparer never evaluates that case (keys differ)",
 ]
@@ -74,6 +83,7 @@ LEVEL_TEXT = ("Lean 4 theorems over executable transliterations of ContentCompar
               "set differences of the non-junk keys, every shared key is counted in exactly one of keys/unchanged/changed (by VALUE, not raw "
               "text; for Fluent by AST equality modulo spans and comments), the counters and word sums partition the distinct reference keys; "
               "for ANY job sequence the summary of a locale is the sum over that locale's jobs only, for the list and every project observer; "
+              "in one process a call's notifications and stats do not depend on any earlier call of any format on any comparer; "
               "tied to the Python by differential runs of the real compare()/add()/remove() on generated (records, edit script) pairs in all "
               "seven formats and on generated multi-locale sessions, with an independent by-construction oracle")
 LEVEL_NOTE = ("trusted: Lean kernel; hand-written models CLModel/Compare/{Content,Session,FluentEnt}.lean (validated by correspondence on every "
@@ -90,12 +100,16 @@ TRUSTED = [
     "FluentAttribute.equals (tied by c03.ftlwords / c03.ftleq / c03.ftlcmp; the fluent.syntax AST is an input)",
     "entity abstraction (key, junk, words, equality class) computed from the real parser objects by harness/impl/compare.py (dtd, android; "
     "and all formats in c03.cmp)",
+    "hand-written process machine Sess.Proc (comparers + empty memo; tied by c03.proc on cross-format histories); the harness's own unescapers "
+    "and word counter for the cross-format pool (props/c03.py x_val / x_count, cross-checked against hand-annotated counts on every run)",
 ]
 ASSUMPTIONS = ["the oracle judges comparisons in which nothing is filtered: one or two project observers without filter, or two project observers "
                "that partition the files between them (every file owned by one); entity- and file-level filter verdicts are exercised in the "
                "correspondence only",
                "files are read as UTF-8 text without carriage returns",
-               "sessions: Junk.junkid is reset before every job (junk keys are process-global counters, not part of any report)"]
+               "sessions: Junk.junkid is reset before every job (junk keys are process-global counters, not part of any report)",
+               "cross-format histories: 'fresh process' = a fork of a pool worker that has imported the code and run nothing (for a sample of "
+               "calls: a new interpreter)"]
 
 FORMATS = ["properties", "dtd", "ini", "inc", "ftl", "po", "android"]
 
@@ -186,6 +200,8 @@ def xml_esc(s):
 
 def print_record(fmt, key, vi, variant):
     """raw text of one record with value index `vi` (variant 1: a different spelling of the same value)"""
+    if vi >= 3000:
+        return print_xraw(fmt, key, vi)
     if vi >= 2000:
         return print_spelling(fmt, key, vi)
     if vi >= 1000:
@@ -261,6 +277,8 @@ def value_of(fmt, key, vi):
     """the raw value index -1 is the empty msgstr of a gettext template"""
     if vi < 0:
         return ""
+    if vi >= 3000:
+        return x_val(fmt, XRAW[vi - 3000][0])
     if vi >= 2000:
         return SPELLINGS[vi - 2000][2]
     if fmt == "ftl":
@@ -273,6 +291,8 @@ def sem(fmt, key, vi):
     its attributes, a Fluent term its value only (attributes of terms are private)"""
     if vi < 0:
         return key[0]
+    if vi >= 3000:
+        return ("x", x_val(fmt, XRAW[vi - 3000][0]))
     if vi >= 2000:
         return SPELLINGS[vi - 2000][2]
     if vi >= 1000:
@@ -284,6 +304,8 @@ def sem(fmt, key, vi):
 
 
 def words(fmt, key, vi):
+    if vi >= 3000:
+        return XRAW[vi - 3000][1][fmt]
     if vi >= 2000:
         return SPELLINGS[vi - 2000][3]
     if vi >= 1000:
@@ -349,6 +371,214 @@ def print_spelling(fmt, key, vi):
         msgid, ctxt = key
         out = "" if ctxt is None else 'msgctxt "%s"\n' % ctxt
         return out + 'msgid "%s"\nmsgstr %s\n' % (msgid, raw)
+    raise ValueError(fmt)
+
+
+# ------------------------------------------------------------------ round 5: ONE raw text, seven formats — the unescaped values differ
+# A raw text R (what `raw_val` of the parsed entity is) written into a file of every format under the SAME key; per format the
+# number of words of the value the format makes of it (hand-annotated; None = R is not a value in that format).  The word
+# count of a string is a function of (format, R): `.properties` and gettext turn `\n` `\t` `\\` (`.properties` also
+# `\uXXXX`) into characters, DTD resolves character references and named entities, ini / inc / Fluent text / Android text
+# (after XML decoding, which is the parser's `raw_val` already) take R literally.  value index = 3000 + position.
+def _x(raw, default, **special):
+    d = {f: default for f in FORMATS}
+    d.update(special)
+    return (raw, d)
+
+
+XRAW = [
+    _x(r"Line one\nLine two", 3, properties=4, po=4),
+    _x(r"tab\there", 1, properties=2, po=2),
+    _x(r"A\u0020B", 1, properties=2, po=None),                   # `\u` is not a gettext escape: no such msgstr
+    _x(r"x\\\ny", 1, properties=2, po=2),                        # `\\` then `\n`
+    _x(r"C:\\temp\\new dir", 2),
+    _x("Tom &amp; Jerry", 3),
+    _x("one&#32;two", 1, dtd=2),
+    _x("one&#x20;two&#10;three", 1, dtd=3),
+    _x("a &lt;br&gt; b", 3, dtd=2),                              # DTD: `<br>` after unescaping, a line break for the counter
+    _x("x&nbsp;y", 1, dtd=2),
+    _x('msgstr "a b"', 3, po=2),                                 # gettext: this IS the msgstr line; elsewhere three words
+    _x("A B", 2),                                                # the `.properties` value of `A\u0020B`
+    _x("one two", 2),                                            # the DTD value of `one&#32;two`
+    _x("Line one Line two", 4),
+    _x("x&#160;y", 1, dtd=2),
+    # the same VALUE as another raw text in some formats only: whether two strings are equal depends on the format
+    _x("tab\there", 2),                                          # a real tab: the `.properties` / gettext value of `tab\there`
+    _x("caf\u00e9 one", 2),
+    _x(r"caf\u00e9 one", 2, po=None),                             # `.properties`: the same value as `café one`
+    _x("caf&eacute; one", 2),                                    # DTD: the same value as `café one`
+    _x("Tom & Jerry", 3),                                        # DTD: the value of `Tom &amp; Jerry`
+]
+XKEYS = ["title", "alpha", "gamma", "beta", "delta", "openKey"]
+XEXT = {"properties": "x%d.properties", "dtd": "x%d.dtd", "ini": "x%d.ini", "inc": "x%d.inc", "ftl": "x%d.ftl", "po": "x%d.po",
+        "android": "x%d/strings.xml"}
+
+
+def _props_unescape(raw):
+    """`.properties`: `\\uXXXX` (1-4 hex digits), `\\n` `\\r` `\\t` `\\\\`, backslash + newline + indentation dropped, `\\c` -> c"""
+    out, i = [], 0
+    while i < len(raw):
+        c = raw[i]
+        if c != "\\" or i + 1 == len(raw):
+            out.append(c)
+            i += 1
+            continue
+        n = raw[i + 1]
+        if n == "u":
+            j = i + 2
+            while j < len(raw) and j < i + 6 and raw[j] in "0123456789abcdefABCDEF":
+                j += 1
+            if j > i + 2:
+                out.append(chr(int(raw[i + 2:j], 16)))
+                i = j
+                continue
+        if n == "\n":
+            i += 2
+            while i < len(raw) and raw[i] in " \t":
+                i += 1
+            continue
+        out.append({"n": "\n", "r": "\r", "t": "\t", "\\": "\\"}.get(n, n))
+        i += 2
+    return "".join(out)
+
+
+_DTD_NAMED = {"amp": "&", "lt": "<", "gt": ">", "quot": '"', "nbsp": "\u00a0", "apos": "'", "eacute": "\u00e9"}
+
+
+def _dtd_unescape(raw):
+    """DTD: `&name;` for the names of the pool, `&#NN;`, `&#xHH;`; anything else stays"""
+    out, i = [], 0
+    while i < len(raw):
+        if raw[i] == "&":
+            j = raw.find(";", i)
+            if j > i:
+                name = raw[i + 1:j]
+                if name in _DTD_NAMED:
+                    out.append(_DTD_NAMED[name])
+                    i = j + 1
+                    continue
+                if name[:2] in ("#x", "#X") and name[2:] and all(ch in "0123456789abcdefABCDEF" for ch in name[2:]):
+                    out.append(chr(int(name[2:], 16)))
+                    i = j + 1
+                    continue
+                if name[:1] == "#" and name[1:].isdigit():
+                    out.append(chr(int(name[1:])))
+                    i = j + 1
+                    continue
+        out.append(raw[i])
+        i += 1
+    return "".join(out)
+
+
+def _po_unescape(body):
+    out, i = [], 0
+    while i < len(body):
+        if body[i] == "\\" and i + 1 < len(body) and body[i + 1] in '\\trn"':
+            out.append({"\\": "\\", "t": "\t", "r": "\r", "n": "\n", '"': '"'}[body[i + 1]])
+            i += 2
+        else:
+            out.append(body[i])
+            i += 1
+    return "".join(out)
+
+
+def x_val(fmt, raw):
+    """the value format `fmt` makes of the raw text (independent of the implementation)"""
+    if fmt == "properties":
+        return _props_unescape(raw)
+    if fmt == "dtd":
+        return _dtd_unescape(raw)
+    if fmt == "po":
+        return _po_unescape(raw[len('msgstr "'):-1] if raw.startswith('msgstr "') else raw)
+    return raw
+
+
+def x_count(val):
+    """the documented word count, by a scanner: `<br>` / `<br/>` (white-space allowed before the slash) is a line break, then
+    every `<name …>` / `</name …>` up to the next `>` on the same line is dropped, then white-space separated words"""
+    def wordch(ch):
+        return ch.isalnum() or ch == "_"
+    out, i = [], 0
+    while i < len(val):                                   # pass 1: line breaks
+        if val.startswith("<br", i):
+            j = i + 3
+            while j < len(val) and val[j] in " \t\r\n":
+                j += 1
+            if j < len(val) and val[j] == "/":
+                j += 1
+            if j < len(val) and val[j] == ">":
+                out.append("\n")
+                i = j + 1
+                continue
+        out.append(val[i])
+        i += 1
+    val, out, i = "".join(out), [], 0
+    while i < len(val):                                   # pass 2: tags
+        if val[i] == "<":
+            j = i + 1
+            if j < len(val) and val[j] == "/":
+                j += 1
+            k = j
+            while k < len(val) and wordch(val[k]):
+                k += 1
+            if k > j:
+                # `.*?>` with backtracking into the name: the first `>` after at least one name character, not across a newline
+                e = j + 1
+                while e < len(val) and val[e] not in ">\n":
+                    e += 1
+                if e < len(val) and val[e] == ">":
+                    i = e + 1
+                    continue
+        out.append(val[i])
+        i += 1
+    return len("".join(out).split())
+
+
+def x_selfcheck():
+    """the hand-annotated word counts of the pool against the independent unescapers + counter"""
+    bad = []
+    for raw, ann in XRAW:
+        for fmt in FORMATS:
+            if ann[fmt] is not None and x_count(x_val(fmt, raw)) != ann[fmt]:
+                bad.append((raw, fmt, ann[fmt], x_count(x_val(fmt, raw))))
+    return bad
+
+
+def x_partners():
+    """pairs of raw texts that are the SAME value in some formats and different values in others:
+    [(i, j, formats where equal, formats where different)]"""
+    out = []
+    for i in range(len(XRAW)):
+        for j in range(i + 1, len(XRAW)):
+            both = [f for f in FORMATS if XRAW[i][1][f] is not None and XRAW[j][1][f] is not None]
+            eq = [f for f in both if x_val(f, XRAW[i][0]) == x_val(f, XRAW[j][0])]
+            ne = [f for f in both if f not in eq]
+            if eq and ne:
+                out.append((i, j, eq, ne))
+    return out
+
+
+def x_key(fmt, k):
+    return (k, None) if fmt == "po" else k
+
+
+def print_xraw(fmt, key, vi):
+    raw = XRAW[vi - 3000][0]
+    if fmt == "properties":
+        return "%s = %s" % (key, raw)
+    if fmt == "dtd":
+        q = "'" if '"' in raw else '"'
+        return "<!ENTITY %s %s%s%s>" % (key, q, raw, q)
+    if fmt == "ini":
+        return "%s=%s" % (key, raw)
+    if fmt == "inc":
+        return "#define %s %s" % (key, raw)
+    if fmt == "ftl":
+        return "%s = %s" % (key, raw)
+    if fmt == "android":
+        return '  <string name="%s">%s</string>' % (key, xml_esc(raw))
+    if fmt == "po":
+        return 'msgid "%s"\n%s\n' % (key[0], raw if raw.startswith('msgstr "') else 'msgstr "%s"' % raw)
     raise ValueError(fmt)
 
 
@@ -845,6 +1075,12 @@ def run(ctx):
                 "parser, unreadable reference or localization, text-level jobs with the full checker model for properties/ini/inc/po, merge "
                 "copies), locale-major or shuffled order; KeyedTuple membership / indexing with str, tuple, int, entity-object and unhashable "
                 "arguments; "
+                "cross-format histories in ONE PROCESS (each history in a process of its own, one or two comparers): consecutive compare / add "
+                "calls on files of DIFFERENT formats that share keys and RAW value texts whose unescaped values differ by format (\\n \\t "
+                "\\uXXXX \\\\ in .properties / gettext, &#32; &nbsp; &lt;br&gt; in DTD, literal elsewhere) — every ordered pair of formats, "
+                "every raw text as a missing file of all seven formats in a rotating order and backwards, random call sequences in both orders; "
+                "judged per call against the records (word sums by hand-annotated counts = an independent unescaper + counter) AND against the "
+                "same call run alone in a fresh process; "
                 "count_words: every pool value in every format plus random markup token sequences. non-trivial = at least two of "
                 "missing/obsolete/changed/unchanged/keys are non-zero (sessions: at least two locales with non-zero counters); distinct = "
                 "distinct (format, canonical report)")
@@ -922,6 +1158,7 @@ def run(ctx):
     run_words(ctx, out)
     run_ftl_pool(ctx, out)
     run_sessions(ctx, out)
+    run_xformat(ctx, out)
     run_keyed(ctx, out)
     cleanup()
     return out
@@ -986,6 +1223,10 @@ def run_words(ctx, out):
             out.violations.append({"what": "count_words raised %s" % r, "input": {"value": v}})
             continue
         out.count("words=%d" % min(r["r"], 5))
+        if r["r"] != x_count(v):
+            # the documented count by an independent scanner (line breaks, tags dropped, white-space separated words)
+            out.violations.append({"what": "count_words(%r) = %d, expected %d" % (v, r["r"], x_count(v)), "input": {"value": v}})
+            continue
         if r["r"] >= 2 and "<" in v:
             out.nontrivial.add(("words", v))
         if mo is not None and mo != str(r["r"]):
@@ -1305,6 +1546,210 @@ def run_sessions(ctx, out):
             out.disagreements.append({"op": "c03.sess", "input": inp, "impl": v["canon"], "model": mo})
 
 
+# ------------------------------------------------------------------ round 5: ONE PROCESS, jobs of DIFFERENT formats that share keys and raw texts
+def x_files(n, fmt, loc, ref_text, l10n_text):
+    """the two File entries of call number `n` (flat layout, as compareProjects builds them)"""
+    name = "browser/" + XEXT[fmt] % n
+    out = []
+    for root, locale, text in (("en", None, ref_text), ("l10n", loc, l10n_text)):
+        out.append({"file": "%s/%s" % (loc, name), "module": None, "locale": locale, "path": "%s/%s/%s" % (root, loc, name),
+                    "text": text, "dir": False, "name": name})
+    return name, out
+
+
+def x_job(rng, fmt, assign, kind, loc, edits=None, extra=True, alt=None):
+    """one job of format `fmt`: the reference holds key -> raw text as `assign` says (where the format can hold that text);
+    the localization keeps / re-values / drops per record (`edits`: a fixed list of these, else random); `alt`: key -> the raw
+    text a re-valued record gets (so that the same pair of raw texts meets in several formats), else a random one"""
+    ref = [("rec", x_key(fmt, k), 3000 + xi, 0) for k, xi in assign if XRAW[xi][1][fmt] is not None]
+    if extra and rng.random() < 0.3:
+        # a record of the format's own pool next to the shared ones
+        k = rng.choice([k for k in KEYS[fmt] if (k[0] if fmt == "po" else k) not in XKEYS])
+        ref.insert(rng.randrange(len(ref) + 1), ("rec", k, rng.choice([v for v in legal_vis(fmt, k) if v < len(VALUES) and v != EMPTY]), 0))
+    l10n = []
+    if kind == "cmp":
+        ok = [3000 + i for i in range(len(XRAW)) if XRAW[i][1][fmt] is not None]
+        for i, it in enumerate(ref):
+            e = edits[i % len(edits)] if edits else rng.choice(["keep", "keep", "revalue", "revalue", "drop"])
+            if e == "keep" or (e == "revalue" and it[2] < 3000):
+                l10n.append(it)
+            elif e == "revalue":
+                k = it[1][0] if fmt == "po" else it[1]
+                if alt and k in alt and 3000 + alt[k] in ok and 3000 + alt[k] != it[2]:
+                    l10n.append(("rec", it[1], 3000 + alt[k], 0))
+                else:
+                    l10n.append(("rec", it[1], rng.choice([v for v in ok if v != it[2]]), 0))
+        if edits is None:
+            spare = [k for k in XKEYS if x_key(fmt, k) not in [it[1] for it in ref]]
+            if spare and rng.random() < 0.3:
+                l10n.insert(rng.randrange(len(l10n) + 1), ("rec", x_key(fmt, rng.choice(spare)), rng.choice(ok), 0))
+            if rng.random() < 0.3:
+                rng.shuffle(l10n)
+    return {"fmt": fmt, "kind": kind, "loc": loc, "ref": ref, "l10n": l10n}
+
+
+def x_history(rng, jobs, ncomp=1, nobs=1):
+    """jobs (x_job results, in call order) -> comparer specs (as for impl_session), the calls, and the oracle's cases"""
+    specs = [{"quiet": 0, "files": [], "observers": [None] * nobs, "jobs": []} for _ in range(ncomp)]
+    cases = [[] for _ in range(ncomp)]
+    calls = []
+    for n, j in enumerate(jobs):
+        c = rng.randrange(ncomp) if ncomp > 1 else 0
+        fmt = j["fmt"]
+        ref_text = print_file(fmt, j["ref"], False)
+        l10n_text = print_file(fmt, j["l10n"], False) if j["kind"] == "cmp" else None
+        name, fs = x_files(n, fmt, j["loc"], ref_text, l10n_text)
+        spec = specs[c]
+        ri = len(spec["files"])
+        spec["files"] += fs
+        level = "text" if (fmt in TEXT_LEVEL and rng.random() < 0.7) else "ents"
+        spec["jobs"].append({"op": j["kind"], "ref": ri, "l10n": ri + 1, "merge": False, "level": level, "fmt": fmt})
+        cases[c].append({"kind": j["kind"], "fmt": fmt, "name": name, "locale": j["loc"],
+                         "case": {"fmt": fmt, "ref": j["ref"], "l10n": j["l10n"], "blank": False, "verdicts": None, "add": None}})
+        calls.append([c, len(spec["jobs"]) - 1])
+    return {"specs": specs, "calls": calls, "cases": cases,
+            "owners": [[list(range(nobs)) for _ in spec["files"]] for spec in specs]}
+
+
+def gen_xhistories(ctx):
+    rng = ctx.rng("c03", "xformat")
+    hists = []
+
+    def both(h, tag):
+        # the same calls in both orders
+        hists.append(dict(h, tag=tag))
+        hists.append(dict(h, calls=h["calls"][::-1], tag=tag + ".reversed"))
+    # (a) every ordered pair of formats: compare f1, compare f2, then a missing file of each, the SAME keys and raw texts
+    pairs = [(f1, f2) for f1 in FORMATS for f2 in FORMATS if f1 != f2]
+    for n, (f1, f2) in enumerate(pairs):
+        keys = [XKEYS[(n + i) % 5] for i in range(3)] + ["openKey"]
+        assign = [(k, (3 * n + 2 * i) % len(XRAW)) for i, k in enumerate(keys)]
+        jobs = [x_job(rng, f1, assign, "cmp", "de", ["keep", "revalue", "drop", "keep"], extra=False),
+                x_job(rng, f2, assign, "cmp", "de", ["keep", "revalue", "drop", "keep"], extra=False),
+                x_job(rng, f1, assign, "add", "fr", extra=False), x_job(rng, f2, assign, "add", "fr", extra=False)]
+        hists.append(dict(x_history(rng, jobs), tag="pair.%s.%s" % (f1, f2)))
+    # (b) one raw text under one key as a missing file of every format, in a rotating order, and backwards
+    for xi in range(len(XRAW)):
+        order = FORMATS[xi % 7:] + FORMATS[:xi % 7]
+        jobs = [x_job(rng, f, [("title", xi)], "add", "de", extra=False) for f in order if XRAW[xi][1][f] is not None]
+        both(x_history(rng, jobs), "single.%d" % xi)
+    # (d) two raw texts that are ONE value in format f1 and TWO values in format f2, compared under the same keys in both, both orders
+    partners = x_partners()
+    for n, (i, j, eq, ne) in enumerate(partners):
+        for a in range(min(2, len(eq))):
+            for b in range(min(3, len(ne))):
+                f1, f2 = eq[(n + a) % len(eq)], ne[(n + b) % len(ne)]
+                jobs = [x_job(rng, f, [("title", i), ("alpha", j)], "cmp", "de", ["revalue"], extra=False, alt={"title": j, "alpha": i})
+                        for f in (f1, f2)]
+                both(x_history(rng, jobs), "equal.%d.%d" % (i, j))
+    # (c) random: 2-6 calls over 2-4 formats (a format may come back), 1-4 shared keys, one or two comparers, both orders
+    for n in range(ctx.n(26, 1500)):
+        fmts = rng.sample(FORMATS, rng.choice([2, 2, 3, 4]))
+        seq = fmts + [rng.choice(fmts) for _ in range(rng.choice([0, 0, 1, 2]))]
+        rng.shuffle(seq)
+        keys = rng.sample(XKEYS, rng.choice([1, 2, 3, 4]))
+        assign = [(k, rng.randrange(len(XRAW))) for k in keys]
+        # what a re-valued record of this history gets: a partner of the reference text where there is one
+        alt = {}
+        for k, xi in assign:
+            mates = [j if i == xi else i for i, j, _, _ in partners if xi in (i, j)]
+            alt[k] = rng.choice(mates) if (mates and rng.random() < 0.7) else rng.randrange(len(XRAW))
+        jobs = []
+        for f in seq:
+            a = assign
+            if rng.random() < 0.25:            # this job spells some key differently
+                a = [(k, rng.randrange(len(XRAW)) if rng.random() < 0.5 else xi) for k, xi in assign]
+            jobs.append(x_job(rng, f, a, "cmp" if rng.random() < 0.75 else "add", rng.choice(["de", "de", "fr"]),
+                              alt=alt if rng.random() < 0.7 else None))
+        both(x_history(rng, jobs, ncomp=rng.choice([1, 1, 2]), nobs=rng.choice([1, 1, 2])), "random.%d" % n)
+    return hists
+
+
+def x_job_view(jo):
+    """what a call reported, as far as the property fixes it: the stats it pushed, the missing / obsolete strings it named
+    (as sets), the changed / unchanged classification, and how many errors and warnings it raised"""
+    return {"pushes": jo["pushes"], "strings": sorted(n for _, n, _ in jo["notes"] if n[:2] in ("M:", "O:", "F:", "R:")),
+            "hooks": {k: sorted(v) for k, v in jo["hooks"].items()},
+            "messages": sorted(n.split(":")[0] for _, n, _ in jo["notes"] if n[:2] in ("E:", "W:"))}
+
+
+def x_judge(h, r):
+    """(violation message | None, list of lesser differences)"""
+    if "r" not in r:
+        return "the worker raised %s: %s" % (r.get("exc"), r.get("msg")), []
+    hist, fresh = r["r"]["hist"], r["r"]["fresh"]
+    if "r" not in hist:
+        return "a history of calls in one process raised %s: %s" % (hist.get("exc"), hist.get("msg")), []
+    hv = hist["r"]
+    # (1) by construction, per comparer: every job against its records, every summary = the sum of its locale's jobs
+    for c, spec in enumerate(h["specs"]):
+        called = [n for cc, n in h["calls"] if cc == c]
+        sess = {"spec": dict(spec, jobs=[spec["jobs"][n] for n in sorted(called)]), "cases": [h["cases"][c][n] for n in sorted(called)],
+                "owners": h["owners"][c]}
+        v = {"jobs": [hv["sessions"][c]["jobs"][n] for n in sorted(called)], "summary": hv["sessions"][c]["summary"]}
+        bad = session_oracle(sess, v)
+        if bad:
+            return "comparer %d: %s" % (c, bad), []
+    # (2) differential: the same call as the first call of a fresh process
+    minor = []
+    for i, (c, n) in enumerate(h["calls"]):
+        case = h["cases"][c][n]
+        where = "call %d (%s %s, locale %s)" % (i, case["kind"], case["name"], case["locale"])
+        if "r" not in fresh[i]:
+            return "%s alone in a fresh process raised %s: %s" % (where, fresh[i].get("exc"), fresh[i].get("msg")), []
+        a = x_job_view(hv["sessions"][c]["jobs"][n])
+        b = x_job_view(fresh[i]["r"]["sessions"][0]["jobs"][0])
+        for what in ("pushes", "strings", "hooks"):
+            if a[what] != b[what]:
+                return "%s: %s after the earlier calls of this process = %s, as the first call of a fresh process = %s" % (
+                    where, {"pushes": "the stats", "strings": "the missing / obsolete strings", "hooks": "changed / unchanged"}[what],
+                    a[what], b[what]), []
+        if a["messages"] != b["messages"]:
+            minor.append({"call": i, "history": a["messages"], "fresh": b["messages"]})
+    return None, minor
+
+
+def run_xformat(ctx, out):
+    bad = x_selfcheck()
+    if bad:
+        raise RuntimeError("cross-format pool: annotated word counts disagree with the independent counter: %r" % bad)
+    hists = gen_xhistories(ctx)
+    rng = ctx.rng("c03", "xformat", "spawn")
+    # a few calls are also run in a NEW interpreter (the others in a fork of a worker that has run nothing)
+    nspawn = ctx.n(10, 300)
+    spawn = [[] for _ in hists]
+    for _ in range(nspawn):
+        i = rng.randrange(len(hists))
+        spawn[i].append(rng.randrange(len(hists[i]["calls"])))
+    args = [[h["specs"], h["calls"], sp] for h, sp in zip(hists, spawn)]
+    res = pool.pmap("impl.compare", "impl_xcase", args, timeout=60.0, batch=3)
+    lines = []
+    for r in res:
+        ok = "r" in r and "r" in r["r"]["hist"]
+        lines.append(r["r"]["hist"]["r"]["line"] if ok else "c03.proc")
+    model = C.run_driver_parallel(lines) if ctx.model_ok else [None] * len(lines)
+    for h, r, mo in zip(hists, res, model):
+        out.evaluations += 1 + len(h["calls"])
+        out.count("xformat.histories")
+        out.count("xformat.calls", len(h["calls"]))
+        out.count("xformat." + h["tag"].split(".")[0])
+        inp = {"xhistory": {"specs": h["specs"], "calls": h["calls"]}, "cases": h["cases"], "owners": h["owners"], "tag": h["tag"],
+               "formats in call order": [h["cases"][c][n]["fmt"] for c, n in h["calls"]]}
+        bad, minor = x_judge(h, r)
+        if bad:
+            out.violations.append({"what": "cross-format history (%s): %s" % (", ".join(inp["formats in call order"]), bad), "input": inp})
+            continue
+        hv = r["r"]["hist"]["r"]
+        if len(set(inp["formats in call order"])) >= 2 and any(
+                st.get("missing_w", 0) + st.get("changed_w", 0) + st.get("unchanged_w", 0)
+                for sv in hv["sessions"] for jo in sv["jobs"] if jo for _, st in jo["pushes"]):
+            out.nontrivial.add(("xformat", hv["canon"]))
+        if minor:
+            out.disagreements.append({"op": "fresh-process", "input": inp, "messages differ": minor})
+        elif mo is not None and mo != hv["canon"]:
+            out.disagreements.append({"op": "c03.proc", "input": inp, "impl": hv["canon"], "model": mo})
+
+
 def run_keyed(ctx, out):
     """KeyedTuple.__contains__ / __getitem__ with every kind of argument: str and tuple keys (present, absent, duplicated),
     ints, the entity objects themselves, an unhashable list"""
@@ -1351,6 +1796,15 @@ def replay(payload):
     res = []
     for v in payload.get("violations", []):
         i = v["input"]
+        if "xhistory" in i:
+            x = i["xhistory"]
+            r = pool.pmap("impl.compare", "impl_xcase", [[x["specs"], x["calls"], []]], timeout=120.0)[0]
+            judged, _ = x_judge({"specs": x["specs"], "calls": x["calls"], "cases": i["cases"], "owners": i["owners"]}, r)
+            res.append({"input": {"calls": [[c, x["specs"][c]["jobs"][n]["op"], x["specs"][c]["files"][x["specs"][c]["jobs"][n]["l10n"]]["path"]]
+                                            for c, n in x["calls"]]},
+                        "oracle": judged,
+                        "report": [sv["summary"] for sv in r["r"]["hist"]["r"]["sessions"]] if ("r" in r and "r" in r["r"]["hist"]) else r})
+            continue
         if "session" in i:
             r = pool.pmap("impl.compare", "impl_session", [[i["session"]]], timeout=60.0)[0]
             if "r" not in r:
